@@ -21,6 +21,7 @@ import (
 	"github.com/gofiber/fiber/v2"
 	"github.com/versity/versitygw/metrics"
 	"github.com/versity/versitygw/s3api/controllers"
+	"github.com/versity/versitygw/s3api/utils"
 	"github.com/versity/versitygw/s3err"
 	"github.com/versity/versitygw/s3log"
 )
@@ -38,6 +39,14 @@ func DecodeURL(logger s3log.AuditLogger, mm *metrics.Manager) fiber.Handler {
 			if seg == "." || seg == ".." {
 				return controllers.SendResponse(ctx, s3err.GetAPIError(s3err.ErrInvalidURI), &controllers.MetaOpts{Logger: logger, MetricsMng: mm})
 			}
+		}
+		// version ids and upload ids become file names in the backends: they
+		// have to be single path components
+		if !utils.IsPathComponentValid(ctx.Query("versionId")) {
+			return controllers.SendResponse(ctx, s3err.GetAPIError(s3err.ErrInvalidVersionId), &controllers.MetaOpts{Logger: logger, MetricsMng: mm})
+		}
+		if !utils.IsPathComponentValid(ctx.Query("uploadId")) {
+			return controllers.SendResponse(ctx, s3err.GetAPIError(s3err.ErrNoSuchUpload), &controllers.MetaOpts{Logger: logger, MetricsMng: mm})
 		}
 		ctx.Path(unescp)
 		return ctx.Next()
